@@ -133,7 +133,7 @@ def parseNOp : List String → Option NOp
   | "n.ext" :: xs => (parseInts xs).map .ext
   | "n.extn" :: r => (parseRaw r).map .extN
   | ["n.map", k] => k.toInt?.map .map
-  | ["n.mut", k] => k.toInt?.map .mut
+  | ["n.mut", k] => k.toInt?.map .mutate
   | _ => none
 
 def parseOOp : List String → Option OOp
@@ -145,7 +145,7 @@ def parseOOp : List String → Option OOp
   | "o.ext" :: xs => (parseInts xs).map .ext
   | "o.exto" :: r => (parseORaw r).map .extO
   | ["o.map", k] => k.toInt?.map .map
-  | ["o.mut", k] => k.toInt?.map .mut
+  | ["o.mut", k] => k.toInt?.map .mutate
   | _ => none
 
 def parseAOp : List String → Option AOp
@@ -391,8 +391,10 @@ def specObsN (s : Seq) : List String :=
         [ line "vec" (ints (Spec.items s.items)),
           line "iter" (ints (Spec.items s.items)),
           line "into" (ints (Spec.items s.items)),
-          line "asref" (ints (Spec.items s.items)),
-          line "optvec" (match Spec.intoOption s.items with | none => "-" | some l => ints l) ]
+          line "asref" (ints (Spec.items s.items)) ]
+      else [])
+  ++ (if s.canon && s.ordered then
+        [ line "optvec" (match Spec.intoOption s.items with | none => "-" | some l => ints l) ]
       else [])
 
 def specObsO (s : Seq) : List String :=
@@ -457,7 +459,7 @@ def spec : Drv SpecSt where
             | .ext l => s.n.extend l
             | .extN v => s.n.extend v.asRef
             | .map k => s.n.map k
-            | .mut k => s.n.map k
+            | .mutate k => s.n.map k
           ({ s with n := n }, specObsN n)
         | none => (s, ["bad-op"])
       else if op == "o.has" then
@@ -479,7 +481,9 @@ def spec : Drv SpecSt where
           | some _ => ({ s with o := s.n }, "took 1" :: specObsO s.n)
           | none =>
             -- `Many(vec![])` is not the empty sequence's representation: only when determined
-            if s.n.canon then (s, "took 0" :: specObsO s.o) else (s, [])
+            -- (a non-canonical empty value can only be `Many(vec![])`, which is handed over as it is;
+            -- the abstract reading says nothing about it, the register just follows)
+            if s.n.canon then (s, "took 0" :: specObsO s.o) else ({ s with o := s.n }, [])
         else (s, ["bad-op"])
       else if op.startsWith "o." then
         match parseOOp toks with
@@ -499,7 +503,7 @@ def spec : Drv SpecSt where
               | .ext l => { s.o.extend l with canon := s.o.canon && !(s.o.items.length == 1 && l.isEmpty) }
               | .extO v => { s.o.extend v.asRef with canon := s.o.canon && !(s.o.items.length == 1 && v.asRef.isEmpty) }
               | .map k => s.o.map k
-              | .mut k => s.o.map k
+              | .mutate k => s.o.map k
             ({ s with o := o }, specObsO o)
         | none => (s, ["bad-op"])
       else if op == "a.feedended" then
@@ -547,20 +551,18 @@ def spec : Drv SpecSt where
       else if op == "eng" then
         match parseEng rest with
         | some c =>
-          -- the unrecoverable errors of the stage that failed, in request order
-          let failed (reqs : List Req) : List Nat := (reqs.filter fun r => deadLink r.1 && !refused r).map (·.1)
-          let cmdErrs : List Nat :=
+          let all := specEngineErrors deadLink c.enabled c.ev c.algoC c.algoO
+          -- the boundary: exactly one failed algo cancel followed by two or more failed algo opens
+          let cmdFailed :=
             match c.ev with
-            | .cmdCancel r | .cmdOpen r => (r.filter fun r => deadLink r.1).map (·.1)
-            | _ => []
-          let enabled' := match c.ev with | .tsOn => true | .tsOff => false | _ => c.enabled
-          let algoRuns := enabled' && cmdErrs.isEmpty && !c.ev.terminal
-          let ec := if algoRuns then failed c.algoC else []
-          let eo := if algoRuns then failed c.algoO else []
-          let all := cmdErrs ++ ec ++ eo
+            | .cmdCancel r => !(failedSends deadLink r).isEmpty
+            | .cmdOpen r => !(failedSends deadLink r).isEmpty
+            | _ => false
+          let ec := if cmdFailed then [] else failedSends deadLink (c.algoC.filter (!refused ·))
+          let eo := if cmdFailed then [] else failedSends deadLink (c.algoO.filter (!refused ·))
           (s, [ line "nerr" (toString all.length), line "errbag" (nats (sortNats all)),
                 line "terminal" (fmtBool (c.ev.terminal || !all.isEmpty)) ]
-              ++ (if ec.length == 1 && decide (2 ≤ eo.length) then []
+              ++ (if ec.length == 1 && decide (2 ≤ eo.length) && all.length == ec.length + eo.length then []
                   else [line "errors" (" ".intercalate (specShape all :: all.map toString))]))
         | none => (s, ["bad-op"])
       else (s, ["bad-op"])
